@@ -283,6 +283,21 @@ def run(ctx):
         case["narrow_inferred"] = True
         ctx.hit("top_category_at_dtype_max")
         check(ctx, case, reqs, pend, shape_mode="inferred")
+    # cubes WITHOUT dimensions (one cell holding every row; the fill routines take their own branch there), on every run:
+    # every weight form with weights that are not all 1, facts with and without a missing row, both policies
+    for rep in range(12):
+        case = A.gen_case(ctx.rng, k=0, N=(3, 6, 1)[rep % 3])
+        n = case["N"]
+        wv = np.array([[0.5, 2.0, 3.5, 1.0, 0.125, 2.0][i % 6] for i in range(n)])
+        wok = np.ones(n, dtype=bool)
+        if rep % 4 == 3 and n > 1:
+            wok[n - 1] = False
+        case["weights"] = [("array", wv, np.ones(n, dtype=bool)), ("scalar", 2.5, True), ("array_valid", wv, wok), None][rep % 4]
+        if rep % 2 == 0:
+            case["fact_valid"] = np.ones_like(case["fact_valid"])
+        case["ignore"] = rep % 3 == 0
+        ctx.hit("no_dimensions")
+        check(ctx, case, reqs, pend)
     big_cells(ctx)
     tiny_weights(ctx)
     if ctx.oracle_only:
